@@ -393,9 +393,13 @@ def equals(I, a, b):
             return lower_bool(e.t == o.value)
         return False
     if isinstance(a, enum.Enum) or isinstance(b, enum.Enum):
-        if is_symbolic(a) or is_symbolic(b):
+        o = b if isinstance(a, enum.Enum) else a
+        if isinstance(o, Opaque) and I.pytype(o) in (None, object):
+            pass        # an uninterpreted value may be this member: unknown (decided below, memoised)
+        elif is_symbolic(a) or is_symbolic(b):
             return False
-        return a == b
+        else:
+            return a == b
     if is_int_like(a) and is_int_like(b):
         if not is_symbolic(a) and not is_symbolic(b):
             return a == b
@@ -569,7 +573,15 @@ def contains(I, container, item):
             return item.cls is container
         return item in container
     if isinstance(container, Opaque):
-        return SBool(fresh("in", z3.BoolSort()))
+        # membership in an uninterpreted collection: the same question gets the same answer, and
+        # the question is recorded (trace predicates ask what a path established about it)
+        from .builtins_model import key_identity
+        memo = container.fields.setdefault('__contains__', {})
+        kid = key_identity(I, I.resolve_opt(item))[0]
+        if kid not in memo:
+            memo[kid] = SBool(fresh("in", z3.BoolSort()))
+        I.path.event('contains', id(container), container.name, item, memo[kid].t)
+        return memo[kid]
     if isinstance(container, _pyvc().SList):
         return SBool(fresh("in", z3.BoolSort()))
     if isinstance(container, Obj):
